@@ -23,30 +23,43 @@ SOURCE_FUNCS = [(SIG + "mesa_signal.py", "BaseObservable.__set__"), (SIG + "mesa
                 (SIG + "mesa_signal.py", "HasObservables"), (SIG + "mesa_signal.py", "descriptor_generator"),
                 (SIG + "mesa_signal.py", "All"), (SIG + "observable_collections.py", "*"), (SIG + "signals_util.py", "*")]
 ENUM_ALWAYS = False
-RULE = ("(a quarter of the histories build the class as a three-level chain or a diamond with bindings shadowed along the mro) histories = one HasObservables class with 2-4 Observable/ObservableList attributes (declared in a base class and "
-        "a subclass, sometimes an attribute overridden with the other kind), 1-2 instances, 2-5 handlers (functions and "
-        "bound methods, bound methods of one listener die together) and <= 30 operations: observe / unobserve / "
-        "clear_all_subscriptions with concrete names, All() and unknown names / signal types in either position, scalar "
-        "assignments (first assignment shows the fallback), whole-list reassignment, append, insert, setitem and delitem "
-        "with ints and slices (negative, out of range, extended, zero step), pop, remove, extend (also with itself), +=, "
-        "reverse, clear, and dropping the last reference to a handler; double subscriptions only in a marked tenth of the "
-        "histories; non-trivial = at least one delivery and at least 3 operations; distinct = by SHA1 of the history")
+RULE = ("four streams per run.  (1) model histories: one HasObservables class with 2-4 Observable / ObservableList attributes, built as "
+        "Base/Sub (attributes inherited, overridden by the other kind or by / over a plain attribute), as a three-level chain, a diamond, or with "
+        "plain mixins before / after HasObservables in the bases and HasObservables in the middle of a diamond; 1-2 instances; 2-5 handlers "
+        "(functions and bound methods; bound methods of one listener die together); <= 30 operations: observe / unobserve / "
+        "clear_all_subscriptions (positional and keyword spelling) with concrete names, All() and unknown names / signal types in either position, "
+        "scalar assignments (first one shows the fallback; same value again; ints up to 2^70), whole-list reassignment, append, insert, "
+        "setitem / delitem with ints and slices (negative, out of range, +-2^70, extended, zero step), pop, remove, extend (also with itself), +=, "
+        "reverse, clear, dropping the last reference to a handler; double subscriptions only in a marked tenth.  (2) re-entrant histories: "
+        "handlers that observe / unobserve on the key being notified, (3) and that assign to the observable from inside the notification - both "
+        "compared with the model only, the oracle demands nothing there.  (4) oracle-only value stream: None, bool, str, tuple, floats incl. "
+        "0.1 / inf / nan, ints beyond 2^53, objects whose truth value is False, an owner whose truth value is False, a subclass of a subclass, "
+        "one list object assigned to two observable lists, an observable list assigned to itself / to another owner, caller-owned arguments, an "
+        "instance created late, a handler that raises and the history continued.  non-trivial = at least one delivery and 3 operations; "
+        "distinct = by SHA1 of the history")
 TRUSTED_BASE = [
-    "Coq 8.16.1 kernel (coqc); vm_compute used for finite facts about the extracted tables and for evaluating the model in the correspondence",
-    "no axioms: Print Assumptions reports 'Closed under the global context' for every C16/C18 theorem",
-    "harness/tables/signals.py (T1) extracting the signal_types sets of Observable / ObservableList and the type each emitting site passes to notify",
-    "harness/props/C16.py driver+observer and the Gallina literal printer (T2, differential testing, not a proof)",
-    "Model/Signals.v is a hand transcription of mesa_signal.py (observe, unobserve, clear_all_subscriptions, notify, _mesa_notify, Observable.__set__), "
-    "observable_collections.py (ObservableList.__set__, SignalingList) and the mutators collections.abc.MutableSequence derives; "
-    "CPython list indexing/slicing (PySlice_AdjustIndices, list_ass_subscript) and weak references (dead at once when the last strong reference goes) as modelled",
+    "Coq 8.16.1 kernel (coqc); vm_compute for finite facts about the extracted tables and for evaluating the models in the correspondence",
+    "no axioms: Print Assumptions reports 'Closed under the global context' for all 32 C16_* / C18_* theorems (12 Examples beside them)",
+    "T1 extractors (fail closed): harness/tables/signals.py (signal_types sets, emitted type per site, descriptor_generator's mro walk), "
+    "harness/tables/signals_code.py (pyexpr subclass translating the bodies of observe / unobserve / clear_all_subscriptions / _mesa_notify and of "
+    "SignalingList.__setitem__ / __delitem__ / insert / append; residual glue compared modulo local names, messages, docstrings), "
+    "harness/tables/signals_stdlib.py (pop / remove / extend / __iadd__ / reverse / clear translated from the running interpreter's "
+    "_collections_abc.py, checked against the running bytecode; Sequence.index compared as a normalised skeleton)",
+    "harness/props/C16.py drivers / observers / Gallina printers (T2: differential testing, not a proof)",
+    "modelled, not translated: CPython list indexing and slicing (PySlice_AdjustIndices, list_ass_subscript), weak references dying with the last "
+    "strong reference, attribute lookup / C3 linearisation (the mro is an input of the model), `x.l += v` = __iadd__ then the descriptor's __set__, "
+    "defaultdict never raising KeyError",
     "Uint63 primitive hash only in scratch Cases files, never under a theorem",
 ]
 ASSUMPTIONS = [
-    "values are Python ints and lists of ints; handlers only record what they are called with (no re-entrant observe/assign from a handler)",
+    "model streams carry Python ints (unbounded) and lists of ints; every other kind of value is covered by the oracle-only stream, not by a theorem",
     "a handler subscribed twice to one (name, type) is called once per subscription (policy of DESIGN section 4 C16); generated only in a marked stream",
-    "the order in which observe/unobserve walk the set of signal types is not observable (proved: C16_type_order_irrelevant); the class hierarchy "
-    "(which attribute is inherited or overridden) is exercised by the driver and the oracle, the model sees the effective kind of each attribute",
-    "Computable/Computed are not part of this property (C17)",
+    "handlers of the judged streams only record what they are called with; re-entrant handlers (observe / unobserve / assign during a notification) "
+    "are outside the statement's quantifier: modelled (notify_re, assign_re / walk), compared with the implementation, described by "
+    "C16_reentrant_registry_is_called / C16_unobserve_silences_reentrant_refuted / C16_reentrant_outer_store_wins, never judged by the oracle; "
+    "handlers that raise are continued from, not judged; callables that are neither functions nor bound methods (builtin methods raise TypeError in "
+    "create_weakref; callable objects whose truth value is False are treated as dead) are outside the quantifier and not generated",
+    "Computable / Computed and _register_signal_emitter are not part of this property (C17)",
 ]
 
 TYPE_NAME = {1: "change", 2: "replace", 3: "remove", 4: "insert", 5: "append"}
@@ -73,6 +86,8 @@ def _rand_slice(rng, n):
         r = rng.random()
         if r < 0.3:
             return None
+        if r < 0.33:
+            return rng.choice([2 ** 70, -2 ** 70])
         return rng.randint(-n - 2, n + 2)
     step = rng.choice([None, None, None, 1, 1, 2, 2, -1, -1, -2, 3, 0])
     return [bound(), bound(), step]
@@ -96,8 +111,10 @@ def _rand_lop(rng, cur):
         return [k, v]
     if k == "insert":
         return [k, rng.choice([_rand_index(rng, n), rng.randint(-n - 2, n + 2)]), v]
+    if rng.random() < 0.03:
+        v = rng.choice([2 ** 63 + 5, -2 ** 70, 2 ** 53 + 1])          # ints beyond machine words / float precision
     if k == "setitem":
-        return [k, _rand_index(rng, n), v]
+        return [k, _rand_index(rng, n) if rng.random() > 0.03 else rng.choice([2 ** 70, -2 ** 70]), v]
     if k == "setslice":
         sl = _rand_slice(rng, n)
         if sl[2] in (None, 1) or rng.random() < 0.25:
@@ -106,7 +123,7 @@ def _rand_lop(rng, cur):
             m = _slice_len(n, sl)
         return [k, sl, [rng.randint(0, 5) for _ in range(m)]]
     if k == "delitem":
-        return [k, _rand_index(rng, n)]
+        return [k, _rand_index(rng, n) if rng.random() > 0.03 else rng.choice([2 ** 70, -2 ** 70])]
     if k == "delslice":
         return [k, _rand_slice(rng, n)]
     if k == "pop":
@@ -276,7 +293,7 @@ def _gen_history(rng, nops, dup_stream=False, force_mixed=False):
         else:
             n = rng.randrange(len(decl))
             if decl[n]["kind"] == "obs":
-                v = rng.randint(0, 9)
+                v = rng.randint(0, 9) if rng.random() > 0.03 else rng.choice([2 ** 63 + 5, -2 ** 70, 2 ** 53 + 1])
                 if shadow[i][n] is not None and rng.random() < 0.2:
                     v = shadow[i][n]          # re-assigning the same value still signals
                 ops.append(["assign", i, n, v])
@@ -334,6 +351,7 @@ def _gen_reentrant_assign(rng):
 def gen_cases(rng, tier):
     cases = [_gen_reentrant(rng) for _ in range(40 if tier == "quick" else 400)]
     cases += [_gen_reentrant_assign(rng) for _ in range(40 if tier == "quick" else 400)]
+    cases += [_gen_hx(rng) for _ in range(120 if tier == "quick" else 1500)]
     # the corner cases the quantifier names, always: All in either position on mixed classes, both declaration orders
     for order in (("obs", "list"), ("list", "obs")):
         for where in (("sub", "sub"), ("base", "sub"), ("sub", "base")):
@@ -647,6 +665,314 @@ def _hid_of(h):
     return getattr(h, "_hid", -1)
 
 
+
+# ------------------------------------------------------------------ oracle-only stream: heterogeneous values & objects
+# (the Z-valued model cannot represent these; the property statement is checked on the implementation alone)
+def _hx_val(rng):
+    r = rng.random()
+    if r < 0.12:
+        return ["none"]
+    if r < 0.27:
+        return ["int", rng.choice([0, 1, -1, 7, 2 ** 53 + 1, -2 ** 70])]
+    if r < 0.40:
+        return ["float", rng.choice(["0.1", "0.0", "-0.0", "1e308", "2.5", "inf"])]
+    if r < 0.46:
+        return ["nan"]
+    if r < 0.58:
+        return ["str", rng.choice(["", "a", "change"])]
+    if r < 0.66:
+        return ["tuple", rng.choice([[], [1, 2]])]
+    if r < 0.74:
+        return ["bool", rng.random() < 0.5]
+    if r < 0.87:
+        return ["falsy", rng.randint(0, 2)]      # an object whose truth value is False (and len 0); the same id = the same object
+    return ["obj", rng.randint(0, 2)]
+
+
+def _gen_hx(rng):
+    ops = []
+    for _ in range(rng.randint(8, 22)):
+        i = rng.randrange(2)
+        r = rng.random()
+        if r < 0.2:
+            ops.append(["assign", i, _hx_val(rng)])
+        elif r < 0.3:
+            ops.append(["assignlist", i, [_hx_val(rng) for _ in range(rng.randint(0, 3))]])
+        elif r < 0.36:
+            ops.append(["shared"])               # the SAME list object assigned to the lists of both instances
+        elif r < 0.40:
+            ops.append(["selfassign", i, rng.randrange(2)])   # owner.l = (this or the other owner's) observable list
+        elif r < 0.45:
+            ops.append(["late"])                 # a further instance created now, after all that history
+        elif r < 0.50:
+            ops.append(["raise", i])             # the next signal of instance i makes one handler raise
+        else:
+            k = rng.choice(["append", "insert", "setitem", "delitem", "pop", "remove", "extend", "iadd", "reverse", "clear", "setslice"])
+            op = ["lop", i, k, rng.choice([0, 1, -1, 2, -2, 5, 2 ** 70, -2 ** 70]), _hx_val(rng),
+                  [_hx_val(rng) for _ in range(rng.randint(0, 2))]]
+            ops.append(op)
+    return {"hx": {"kw": rng.random() < 0.5}, "ops": ops}
+
+
+class _Falsy:
+    def __bool__(self):
+        return False
+
+    def __len__(self):
+        return 0
+
+
+def _run_hx(case):
+    from mesa.experimental.mesa_signals import All, HasObservables, Observable, ObservableList
+
+    class Base(HasObservables):
+        x = Observable()
+
+        def __bool__(self):          # an owner whose truth value is False
+            return False
+
+        def __len__(self):
+            return 0
+
+    class S1(Base):
+        l = ObservableList()  # noqa: E741
+
+        def __init__(self):
+            super().__init__()
+            self.l = []
+
+    class S2(S1):                    # a subclass of a subclass with one more observable
+        y = Observable(fallback_value=3)
+
+    pool = {}
+
+    def mat(v):
+        t = v[0]
+        if t == "none":
+            return None
+        if t == "int":
+            return v[1]
+        if t == "float":
+            return float(v[1])
+        if t == "nan":
+            return pool.setdefault("nan", float("nan"))
+        if t == "str":
+            return v[1]
+        if t == "tuple":
+            return tuple(v[1])
+        if t == "bool":
+            return bool(v[1])
+        if t == "falsy":
+            return pool.setdefault(("f", v[1]), _Falsy())
+        return pool.setdefault(("o", v[1]), object())
+
+    failures, obs = [], []
+
+    def fail(key, opi, what):
+        failures.append({"key": key, "op": opi, "what": what})
+
+    def same(a, b):
+        """identical values: the same object, or equal plain values of the same type (ints / strs may be re-created)"""
+        if a is b:
+            return True
+        return type(a) is type(b) and isinstance(a, (int, str, tuple, bool)) and a == b
+
+    def same_list(a, b):
+        return len(a) == len(b) and all(same(p, q) for p, q in zip(a, b))
+
+    objs = [S1(), S2()]
+    seen = {id(o): [] for o in objs}         # what the All/All witness of each instance was called with
+    armed = {}
+
+    def mk_witness(o):
+        def w(signal):
+            if armed.pop(id(o), None):
+                raise RuntimeError("handler failure injected by the harness")
+            d = dict(signal)
+            for f in ("old", "new"):
+                if not isinstance(d.get(f), (str, tuple)) and hasattr(d.get(f), "__iter__"):
+                    d[f] = ("list", list(d[f]))
+            seen[id(o)].append(d)
+        return w
+    keep = [mk_witness(o) for o in objs]
+    kw = case["hx"].get("kw")
+    for o, w in zip(objs, keep):
+        if kw:
+            o.observe(name=All(), signal_type=All(), handler=w)      # keyword spelling of the same call
+        else:
+            o.observe(All(), All(), w)
+    shadow_x = [None, None]
+    shadow_l = [[], []]
+    copy_l = [[], []]                         # the listener's copies, rebuilt from the signals
+    for opi, op in enumerate(case["ops"]):
+        k = op[0]
+        for o in objs:
+            del seen[id(o)][:]
+        try:
+            if k == "late":
+                o3 = S2()
+                armed.clear()
+                if any(refs for per in o3.subscribers.values() for refs in per.values()) or list(o3.l) != [] or "_x" in vars(o3):
+                    fail("C16/values/late-instance", opi, f"an instance created after other instances were used starts with subscribers "
+                         f"{dict(o3.subscribers)} / list {list(o3.l)} / x set: {'_x' in vars(o3)}")
+                got3 = []
+
+                def h3(signal):
+                    got3.append(signal)
+                o3.observe("y", "change", h3)
+                o3.y = 1
+                if len(got3) != 1 or got3[0].old != 3 or got3[0].owner is not o3:
+                    fail("C16/values/late-instance", opi, f"first assignment on a late instance delivered {got3}")
+                obs.append([0])
+                continue
+            if k == "raise":
+                armed[id(objs[op[1]])] = True
+                obs.append([0])
+                continue
+            if k == "shared":
+                armed.clear()
+                shared = [mat(["obj", 0]), 1]
+                snapshot = list(shared)
+                objs[0].l = shared
+                objs[1].l = shared
+                shadow_l[0], shadow_l[1] = list(shared), list(shared)
+                objs[0].l.append(2)
+                shadow_l[0].append(2)
+                if not same_list(shared, snapshot) or not same_list(list(objs[1].l), shadow_l[1]):
+                    fail("C16/values/shared-list-aliasing", opi, f"one list object assigned to two observable lists: after an append to the "
+                         f"first, the caller's list is {shared} and the second list is {list(objs[1].l)}")
+                copy_l = [list(objs[0].l), list(objs[1].l)]
+                obs.append([0])
+                continue
+            i = op[1]
+            o = objs[i]
+            exc = sexc = None
+            arg_before = arg = None
+            if k == "assign":
+                v = mat(op[2])
+                try:
+                    o.x = v
+                except RuntimeError:
+                    exc = "handler"
+                if exc is None:
+                    sig = seen[id(o)]
+                    if len(sig) != 1 or sig[0]["type"] != "change" or sig[0]["name"] != "x" or sig[0]["owner"] is not o \
+                            or not same(sig[0]["new"], v) or not same(sig[0]["old"], shadow_x[i]):
+                        fail("C16/values/payload-identity", opi, f"x = {v!r} (previous {shadow_x[i]!r}) delivered {sig}")
+                    if not same(vars(o).get("_x"), v):
+                        fail("C16/values/stored", opi, f"x = {v!r} stored {vars(o).get('_x')!r}")
+                    shadow_x[i] = v
+                else:
+                    shadow_x[i] = vars(o).get("_x")          # after a failing handler: not judged, continue from what is there
+                obs.append([0])
+                continue
+            if k == "assignlist":
+                arg = [mat(x) for x in op[2]]
+                arg_before = list(arg)
+                try:
+                    o.l = arg
+                    shadow_l[i] = list(arg)
+                except RuntimeError:
+                    exc = "handler"
+            elif k == "selfassign":
+                src = objs[op[2]].l
+                want = list(src)
+                try:
+                    o.l = src
+                    shadow_l[i] = want
+                except RuntimeError:
+                    exc = "handler"
+            else:
+                _, _, kind, ix, v, vs = op
+                v = mat(v)
+                arg = [mat(x) for x in vs]
+                arg_before = list(arg)
+                lop = {"append": ["append", v], "insert": ["insert", ix, v], "setitem": ["setitem", ix, v], "delitem": ["delitem", ix],
+                       "pop": ["pop", None if ix == 5 else ix], "remove": ["remove", v], "extend": ["extend", arg], "iadd": ["iadd", arg],
+                       "reverse": ["reverse"], "clear": ["clear"], "setslice": ["setslice", [None if ix == 5 else ix, None, None], arg]}[kind]
+                keep_shadow = list(shadow_l[i])
+                try:
+                    _apply_plain(shadow_l[i], lop)
+                except (IndexError, ValueError, OverflowError) as e:
+                    sexc = type(e).__name__
+                    shadow_l[i] = keep_shadow
+                try:
+                    if lop[0] == "iadd":
+                        tmp = o.l
+                        tmp += lop[1]
+                        o.l = tmp
+                        del tmp
+                    else:
+                        _apply_plain(o.l, lop)
+                except RuntimeError:
+                    exc = "handler"
+                except (IndexError, ValueError, OverflowError) as e:
+                    exc = type(e).__name__
+                bad_index = {"IndexError", "OverflowError"}      # list.pop(2**70) says OverflowError, self[2**70] IndexError
+                if exc != "handler" and exc != sexc and not (exc in bad_index and sexc in bad_index):
+                    fail("C16/values/wrong-exception", opi, f"{lop}: the observable list raised {exc}, a Python list raises {sexc}")
+            real = list(o.l)
+            if exc == "handler":
+                shadow_l[i] = list(real)                 # not judged (raising handlers are outside the statement); continue from here
+                copy_l[i] = list(real)
+            else:
+                if not same_list(real, shadow_l[i]):
+                    fail("C16/values/wrong-state", opi, f"{op}: the list holds {real}, a Python list holds {shadow_l[i]}")
+                    shadow_l[i] = list(real)
+                # replay the signals on the listener's copy, checking identity of old / new
+                c = copy_l[i]
+                for d in seen[id(o)]:
+                    if d["owner"] is not o or d["name"] != "l":
+                        fail("C16/values/payload-identity", opi, f"{op}: signal for {d['name']!r} of another owner")
+                    t, ixx = d["type"], d.get("index")
+                    old, new = d["old"], d["new"]
+                    try:
+                        if t == "change":
+                            c = list(new[1]) if isinstance(new, tuple) and new and new[0] == "list" else list(new)
+                        elif t == "append":
+                            if ixx != len(c) or old is not None:
+                                fail("C16/values/payload-identity", opi, f"{op}: append signal index {ixx} old {old!r}, copy has {len(c)} items")
+                            c.append(new)
+                        elif t == "insert":
+                            c.insert(ixx, new)
+                        elif t == "replace":
+                            cur = c[ixx]
+                            ok = same_list(old[1], cur) if isinstance(ixx, slice) else same(old, cur)
+                            if not ok:
+                                fail("C16/values/payload-identity", opi, f"{op}: replace signal old {old!r}, the copy holds {cur!r}")
+                            c[ixx] = new[1] if isinstance(ixx, slice) else new
+                        elif t == "remove":
+                            cur = c[ixx]
+                            ok = same_list(old[1], cur) if isinstance(ixx, slice) else same(old, cur)
+                            if not ok or new is not None:
+                                fail("C16/values/payload-identity", opi, f"{op}: remove signal old {old!r} new {new!r}, the copy holds {cur!r}")
+                            del c[ixx]
+                    except (IndexError, TypeError, ValueError) as e:
+                        fail("C16/values/replay", opi, f"{op}: the listener cannot apply {d}: {type(e).__name__}")
+                copy_l[i] = c
+                if not same_list(copy_l[i], real):
+                    fail("C16/values/replay", opi, f"{op}: a listener applying the signals holds {copy_l[i]}, the list holds {real}")
+                    copy_l[i] = list(real)
+                if arg is not None and not same_list(arg, arg_before):
+                    fail("C16/values/argument-mutated", opi, f"{op}: the caller's list changed from {arg_before} to {arg}")
+            # the other instance is untouched
+            j = 1 - i
+            if not same_list(list(objs[j].l), shadow_l[j]) or not same(vars(objs[j]).get("_x"), shadow_x[j]):
+                fail("C16/values/other-instance-changed", opi, f"{op} on instance {i} changed instance {j}")
+            # the registry still holds exactly the two witnesses' subscriptions (also after a raising handler)
+            for o2, w in zip(objs, keep):
+                for nm, per in o2.subscribers.items():
+                    for ty, refs in per.items():
+                        live = [r() for r in refs if r() is not None]
+                        if live != [w]:
+                            fail("C16/values/registry-after", opi, f"{op}: subscribers[{nm!r}][{ty!r}] holds {len(live)} live handlers")
+            obs.append([0])
+        except Exception as e:  # noqa: BLE001
+            obs.append([-1, 99])
+            fail("C16/values/unexpected-exception", opi, f"{op} raised {type(e).__name__}: {e}")
+    return {"obs": obs, "failures": failures, "model": False}
+
+
 def _run_reentrant(case):
     from mesa.experimental.mesa_signals import HasObservables, Observable
 
@@ -663,7 +989,7 @@ def _run_reentrant(case):
     def mk(h):
         def f(signal):
             if with_assign:
-                calls.extend([h, signal.old, signal.new])
+                calls.extend([h] + [v if _is_int(v) else -99 for v in (signal.old, signal.new)])
             else:
                 calls.append(h)
             a, t = script.get(h, ("nop", 0))[:2]
@@ -688,11 +1014,13 @@ def _run_reentrant(case):
             break
         obj.x = i + 1
         reg = [r()._hid for r in obj.subscribers["x"]["change"] if r() is not None]
-        obs.append(list(calls) + [-7] + reg + ([-6, obj._x] if with_assign else []))
+        obs.append(list(calls) + [-7] + reg + ([-6, obj._x if _is_int(obj._x) else -99] if with_assign else []))
     return {"obs": obs, "failures": []}
 
 
 def run_impl(case):
+    if "hx" in case:
+        return _run_hx(case)
     if "re" in case:
         return _run_reentrant(case)
     import gc
@@ -840,7 +1168,10 @@ def run_impl(case):
                     keys = orc.observe_keys(nm, ty)
                     raised = None
                     try:
-                        objs[i].observe(nm_arg(nm), ty_arg(ty), handler(h))
+                        if opi % 3 == 1:       # the same call spelled with keywords
+                            objs[i].observe(name=nm_arg(nm), signal_type=ty_arg(ty), handler=handler(h))
+                        else:
+                            objs[i].observe(nm_arg(nm), ty_arg(ty), handler(h))
                     except ValueError as e:
                         raised = str(e)
                         status = [-1, E_NAME if orc.scope(nm) is None else E_TYPE]
@@ -875,7 +1206,10 @@ def run_impl(case):
                     status = [-2]
                 else:
                     try:
-                        objs[i].unobserve(nm_arg(nm), ty_arg(ty), handler(h))
+                        if opi % 3 == 1:
+                            objs[i].unobserve(name=nm_arg(nm), signal_type=ty_arg(ty), handler=handler(h))
+                        else:
+                            objs[i].unobserve(nm_arg(nm), ty_arg(ty), handler(h))
                     except KeyError:
                         if orc.scope(nm) is None and ty == "all":
                             status = [-1, E_KEY]      # unknown name with All(): outside the statement, recorded
@@ -884,7 +1218,10 @@ def run_impl(case):
                     orc.spec_unobserve(i, nm, ty, h)
                     check_registry(opi, i, "unobserve", op)
             elif kind == "clear":
-                objs[i].clear_all_subscriptions(nm_arg(op[2]))
+                if opi % 3 == 1:
+                    objs[i].clear_all_subscriptions(name=nm_arg(op[2]))
+                else:
+                    objs[i].clear_all_subscriptions(nm_arg(op[2]))
                 orc.spec_clear(i, op[2])
                 check_registry(opi, i, "clear", op)
             elif kind == "kill":
@@ -1154,6 +1491,8 @@ def _haction(a, t):
 
 
 def coq_case(case):
+    if "hx" in case:          # oracle-only (never evaluated by the model): a placeholder keeps replay files well formed
+        return "Plain2 {| c_mro := []; c_vals := []; c_ops := [] |}"
     if "re" in case and case["re"].get("assign"):
         def act(x):
             if x[1] == "assign":
@@ -1199,6 +1538,8 @@ def _coq_plain(case):
 
 
 def op_kinds(case):
+    if "hx" in case:
+        return ["values." + (op[2] if op[0] == "lop" else op[0]) for op in case["ops"]]
     if "re" in case:
         return ["reentrant-assign-round" if case["re"].get("assign") else "reentrant-round"] * len(case["ops"])
     out = []
@@ -1213,6 +1554,8 @@ def op_kinds(case):
 
 
 def nontrivial(case):
+    if "hx" in case:
+        return len(case["ops"]) >= 3
     if "re" in case:
         return len(case["ops"]) >= 2 and bool(case["re"]["script"])
     n = 0
@@ -1224,15 +1567,34 @@ def nontrivial(case):
     return len(case["ops"]) >= 3 and n >= 1
 
 
-LEVEL_TEXT = ("Machine-checked Coq theorems over a Gallina transcription of observe / unobserve / clear_all_subscriptions / notify / "
-              "_mesa_notify, Observable.__set__, ObservableList.__set__, the SignalingList mutators and the MutableSequence mutators "
-              "derived from them: for every history the live registry equals the ledger of subscriptions implied by the history "
-              "(All expanded in either position), every emitted signal is delivered exactly once to each live subscriber of its "
-              "(name, type) in subscription order, a listener replaying the emitted signals keeps an identical copy, unobserve / "
-              "clear / death silence a handler, and a rejected observe leaves the state unchanged.  The model is tied to the code by "
-              "the signal-type tables re-extracted from the source on every run (T1) and by differential evaluation of model vs "
-              "implementation on random histories (T2); an independent oracle states the property on the implementation.")
-LEVEL_NOTE = ("Theorems are about the model.  Handlers that re-enter observe/assign, Computable/Computed and non-int payloads are outside. "
-              "Trusted: Coq kernel, the T1 extractor, the driver/observer, CPython list/weakref semantics as modelled. No axioms.")
-TECHNIQUE = "Coq proof (induction over histories, refinement to a per-key ledger, closed under global context) + source-regenerated tables + vm_compute correspondence"
+LEVEL_TEXT = ("Machine-checked Coq theorems (32, closed under the global context) over executable Gallina models of mesa_signals: "
+              "Model/Signals.v transcribes observe / unobserve / clear_all_subscriptions / notify / _mesa_notify, Observable.__set__, "
+              "ObservableList.__set__, the SignalingList mutators, the six mutators inherited from collections.abc.MutableSequence and "
+              "dict(descriptor_generator(self)) over a class hierarchy.  For EVERY history from the start of every case: the live registry "
+              "equals the ledger of subscriptions the history implies, All expanded in either position (C16_registry_is_ledger); every emitted "
+              "signal is delivered once per subscription to each live subscriber of its (name, type) in subscription order with owner, name, "
+              "type, old, new, index (C16_exactly_subscribers, C16_payload); a listener subscribed All/All from the start that applies what it "
+              "receives holds exactly the real values of all observables after every operation (C16_listener_replay; C16_replay, "
+              "C16_list_op_spec: all 13 mutators as Coq list functions, reverse = rev); unobserve / clear / death silence a handler; observe is "
+              "rejected exactly for an unknown observable or signal type and every raising operation leaves the whole state unchanged "
+              "(C16_unknown_rejected, C18_signals_atomic); the hash order of the signal-type sets cannot show in any observation of any run "
+              "(C16_type_order_irrelevant_runs); the effective kind of an attribute is its most derived definition "
+              "(C16_observables_most_derived).  Code-level T1: the bodies of observe / unobserve / clear_all_subscriptions / _mesa_notify, "
+              "of the four SignalingList mutators and of the six stdlib mutators are translated from the working tree / the running interpreter "
+              "on every run (19 T1 constructs) and proved equal to the model by bridge lemmas (Proofs/SignalsBridge.v: C16_source_code_is_model, "
+              "C16_source_list_code_is_model, C16_source_derived_code_is_model), with the headline restated on the translated code "
+              "(C16_observe_exact_of_source, C16_notify_exact_of_source, C16_reverse_reverses_of_source).  T2: model vs implementation on "
+              "random and corpus histories incl. re-entrant handlers; an independent oracle (ledger, plain-Python shadow, replaying listener) "
+              "states the property on the implementation, with an oracle-only stream for non-integer values and objects.")
+LEVEL_NOTE = ("Theorems are about the models; the tie to the code is T1 (translation + bridge lemmas + normalised skeletons) and T2.  Found on the "
+              "unchanged tree and fixed in /repo: observe(All, All) / observe(All, type) narrowing and partial subscription (#23, also C18), "
+              "unobserve(All, All) leaving subscriptions (#24), the remove signal carrying the mutated list as old (#25), an overriding "
+              "observable registered with the overridden one's signal types.  Recorded, outside the quantifier, not judged: an unobserve made by a "
+              "handler during the notification of the same (name, type) is overwritten (C16_unobserve_silences_reentrant_refuted); a nested "
+              "assignment from a handler is delivered first and the outer store wins.  Oracle-only: values other than ints, falsy objects / "
+              "owners, shared and caller-owned lists, late instances, continuation after a raising handler.  Not covered: Computable / Computed "
+              "(C17), _register_signal_emitter, callables other than functions and bound methods, more than one user class hierarchy shape per "
+              "case.  No axioms.")
+TECHNIQUE = ("Coq proofs (induction over histories, refinement to a per-key ledger, loop invariants, simulation under permuted tables; closed under the "
+             "global context) + code-level T1 (source bodies translated to Gallina, bridge lemmas) + vm_compute correspondence + independent oracle")
 DESIGN_REF = "DESIGN.md section 4, C16 (and C18 site observe)"
